@@ -21,6 +21,10 @@ CHECKS = {
  'C04': ('exploration', 'Hypothesis-generated cases over the full unsigned field range x all 256 hash types, differential vs reference BIP143 digest',
          'Digest equality with a reference written from the BIP143 text (validated on the BIP worked examples) for lock times / sequences up to '
          '2^32-1, amounts to 2^63-1, script codes across the 253-byte and 65,536-byte CompactSize boundaries.', TRUST),
+ 'C05': ('exploration', 'Hypothesis-generated sign->verify cases + exhaustive application of an edit catalogue per case; metamorphic oracle = reference digest change (cross-checked against a hand-written commitment table)',
+         'Inputs signed exactly as the examples do (library SignatureHash + key.sign) must verify; every catalogue edit is applied to each signed '
+         'transaction and VerifyScript must fail iff the reference consensus digest changes; foreign-key signatures must fail. Six templates x '
+         'six standard hash types (+ undefined bytes) x positions; class histogram must show must-fail and must-pass edits for every hash type.', TRUST),
  'C06': ('exploration', 'differential testing vs an independent reference Script interpreter: exhaustive enumeration of short programs + Hypothesis grammar/signature/mutation generators + parameterised limit probes',
          'Library EvalScript/VerifyScript compared with a from-scratch interpreter (validated on 622 Core vectors) on every script of <=2 (3) tokens, '
          'grammar programs, reference-signed signature programs (all templates, CODESEPARATOR, FindAndDelete, P2SH), limit probes at L-3..L+3 and '
